@@ -553,7 +553,61 @@ def rule_h(ctx, out):
     out.samples.append({"sequences_examined": total["sequences"], "rewritten_and_equivalent": good})
 
 
+def rule_i(ctx, out):
+    """When rules make the result of a load unused, update_storage_sequences takes that load out of the access order and
+    re-derives the dependences.  Exactly the removed loads may leave the order: a load that is still used and loses its entry loses
+    its ordering against the stores around it.  Decided by abstract evaluation on every access sequence of a small family and every
+    non-empty set of its loads declared unused."""
+    import itertools
+    from ..core import memrules as mr
+    from ..core.interp import ModuleInterp
+    from ..core.minieval import Unsupported, Raised
+    f = ctx.func(f"{GO}.update_storage_sequences")
+    # the transitive reduction (networkx) does not touch the order lists examined here
+    mi = ModuleInterp(ctx, max_steps=400000, extern={"simplify_dependences": lambda d: d})
+    env = mi.module_env(GO)
+    n = 0
+    for loc, ld in (("memory", "MLOAD"), ("storage", "SLOAD")):
+        thorough = ctx.tier == "thorough"
+        addrs = (["s(0)", "s(1)", "32"] if loc == "memory" else ["s(0)", "s(1)", "1"]) if thorough else ["s(0)", "32" if loc == "memory" else "1"]
+        for seq in mr.sequences(loc, 3, addrs, ["s(2)"], False, thorough and loc == "memory"):
+            loads = [e for e in seq if e[0][-1].startswith(("mload", "sload"))]
+            if not loads:
+                continue
+            for r in range(1, len(loads) + 1):
+                for removed in itertools.combinations(range(len(loads)), r):
+                    n += 1
+                    u_dict = {f"s({100 + k})": e for k, e in enumerate(loads)}
+                    recs = [{"id": f"{ld}_{k}", "disasm": ld, "inpt_sk": [loads[k][0][0]], "outpt_sk": [f"s({100 + k})"], "storage": False} for k in removed]
+                    order = [(tuple(e[0]), e[1]) for e in seq]
+                    env.update(extra_dep_info={}, debug=False, u_dict=u_dict, non_aliasing_disabled=False, storage_dep=[], memory_dep=[],
+                               memory_order=list(order) if loc == "memory" else [], storage_order=list(order) if loc == "storage" else [])
+                    try:
+                        mi.call(f, recs, False, 2)
+                    except Raised as e:
+                        out.bad(f"order-after-dead-loads:{loc}:raises", f"update_storage_sequences raises {e.what} on [{mr.show(seq)}] with loads {removed} unused", where(f))
+                        continue
+                    except Unsupported as e:
+                        raise AnalysisError(f"update_storage_sequences: cannot evaluate abstractly on [{mr.show(seq)}]: {e}")
+                    got = env["memory_order"] if loc == "memory" else env["storage_order"]
+                    gone = [loads[k] for k in removed]
+                    want = [e for e in order if e not in gone]
+                    if got == want:
+                        out.ok()
+                    else:
+                        lost = [e for e in want if e not in got]
+                        kept = [e for e in got if e in gone]
+                        what = f"the still-used access {mr.show(lost[:1])} leaves the order" if lost else f"the unused load {mr.show(kept[:1])} stays in the order" if kept else "the order is permuted"
+                        out.bad(f"order-after-dead-loads:{loc}:{'used-load-dropped' if lost else 'unused-load-kept' if kept else 'permuted'}",
+                                f"update_storage_sequences on [{mr.show(seq)}] with the result of load #{removed} unused: {what}", where(f),
+                                {"sequence": mr.show(seq), "unused_loads": list(removed), "order_after": mr.show(got)})
+    out.samples.append({"sequences_x_unused_sets": n})
+    if n < 150:
+        raise AnalysisError(f"only {n} cases enumerated")
+
+
 RULES = [
+    ("C02.i", "exactly the dead loads leave the access order", 150, rule_i),
     ("C02.h", "memory/storage simplification preserves the access sequence's effect", 500, rule_h),
     ("C02.g", "different address terms are dependent", 10, rule_g),
     ("C02.e", "unification windows cover every access between the two unified ones", 2, rule_e),
